@@ -36,28 +36,14 @@ Definition obs_eqb (a b : obs) : bool :=
   outcome_eqb oa ob && list_eqb kp_eqb pa pb && Bool.eqb ea eb && list_eqb (list_eqb val_eqb) la lb.
 Definition obsl_eqb := list_eqb obs_eqb.
 
-(* open finding classes (findings/C08.json):
-   2 holes become own undefined elements in the arrays returned by concat/slice/splice/map
-   3 reduce/reduceRight without initial value over an array of holes returns undefined
-   4 reduceRight passes the index as a string
-   (1, 5, 6, 7, 8, 9 were repaired in /repo and are no longer modelled: their old behaviour is a violation)
-   a history is attributed to the lowest-numbered departure that makes it differ from ES5 *)
-Definition classes : list Z := [2; 3; 4].
-
-Definition classify (init : obj) (ops : list op) (s : list obs) : Z :=
-  match filter (fun c => negb (obsl_eqb (run (upto c) init ops) s)) classes with
-  | c :: _ => c
-  | [] => 99
-  end.
-
+(* no finding of C08 is open: every departure from ES5 is a violation (class 0) *)
 Definition verdict (c : case) : Z * Z :=
   match c with
   | CHist init ops observed =>
       let s := run es5 init ops in
       let m := run otto init ops in
       if declines s || declines m then declined
-      else if obsl_eqb m s then judge obsl_eqb observed m s 0
-      else judge obsl_eqb observed m s (classify init ops s)
+      else judge obsl_eqb observed m s 0
   | CSort elems cmp observed =>
       match sort_model elems cmp with
       | None => declined
@@ -68,12 +54,12 @@ Definition verdict (c : case) : Z * Z :=
       end
   | CStr m s args observed =>
       match str_spec m s args, str_model m s args with
-      | Some sp, Some mo => judge (option_eqb zlist_eqb) observed mo (Some sp) 9
+      | Some sp, Some mo => judge (option_eqb zlist_eqb) observed mo (Some sp) 0
       | _, _ => declined
       end
   | CCtor args observed =>
       match ctor_spec args, ctor_model args with
-      | Some sp, Some mo => judge outcome_eqb observed mo sp 10
+      | Some sp, Some mo => judge outcome_eqb observed mo sp 0
       | _, _ => declined
       end
   end.
